@@ -144,7 +144,47 @@ def metaLine : String :=
   s!"refused={NumGo.refused.length} problems={NumGo.problems.length} translated={NumGo.goSigs.length - NumGo.refused.length}" ++
     " | " ++ " ;; ".intercalate r ++ " | " ++ " ;; ".intercalate NumGo.problems
 
-def handle (toks : List String) : String :=
+def toNumV : GV → Option V
+  | .int v => some (.int v)
+  | .uint v => some (.uint v)
+  | .char v => some (.char v)
+  | .flt f => some (.flt f)
+  | .bool _ => none
+
+/-- What the mathematical order says about the three-way `Compare` of two operands:
+`err` (not comparable), `nan` (unordered), or -1 / 0 / 1. -/
+def spec3 (a b : GV) : String :=
+  match toNumV a, toNumV b with
+  | some x, some y =>
+    match specCmp native nativeCmp x y with
+    | none => "err"
+    | some none => "nan"
+    | some (some .lt) => "-1"
+    | some (some .eq) => "0"
+    | some (some .gt) => "1"
+  | _, _ => "-"
+
+/-- `same api …`: the translated functions (and the spec) on the operand pair (v, v). The
+model and the spec are value-level: that both operands are one object cannot matter. -/
+def handleSameApi (op : String) (v : GV) : String :=
+  if op == "cmp3" then
+    let m := match NumGo.Compare native v v with
+      | .ok r => if r.toInt > 1 then "nan" else toString r.toInt
+      | .err => "err"
+      | .panic => "panic"
+    s!"{m}\t{spec3 v v}"
+  else match parseNumericOp op with
+    | some o =>
+      let sp := match toNumV v, parseAr op with
+        | some x, some aop => specArith false aop x x
+        | _, _ => "-"
+      s!"{showRes showGV false (NumGo.NumericDo native o v v)}\t{sp}"
+    | none =>
+      match parseIntegerOp op with
+      | some o => s!"{showRes showGV false (NumGo.IntegerDo native o v v)}\t-"
+      | none => "bad-op\t-"
+
+def handleCore (toks : List String) : String :=
   match toks with
   | "meta" :: _ => metaLine ++ "\t-"
   | "gcmp" :: _ | "gar" :: _ | "gint" :: _ =>
@@ -177,5 +217,24 @@ def handle (toks : List String) : String :=
         | none => "bad-op\t-"
     | _ => "bad-op\t-"
   | _ => "bad-op\t-"
+
+end ZygoVerif.Driver.Num
+
+namespace ZygoVerif.Driver.Num
+
+/-- `same <route> <op> <t> <hex>`: both operands are one object. Every route other than `api`
+is answered by the `cmp` / `ar` machinery on the value pair (v, v). -/
+def handle (toks : List String) : String :=
+  match toks with
+  | "same" :: route :: op :: t :: h :: [] =>
+    if route == "api" then
+      match parseGV t h with
+      | some v => handleSameApi op v
+      | none => "bad-op\t-"
+    else
+      let mode := if route == "fn" then "fn" else "ev"
+      let kind := if (parseCmp op).isSome then "cmp" else "ar"
+      handleCore [kind, mode, op, t, h, t, h]
+  | _ => handleCore toks
 
 end ZygoVerif.Driver.Num
